@@ -42,7 +42,7 @@ func datagram(class string, seq int) []byte {
 	v["SequenceId"] = uint32(1000 + seq)
 	v["EventIndex"] = uint32(70 + seq)
 	v["CardNumber"] = uint32(8000000 + seq)
-	v["SystemTime"] = spec.HMS{H: 13, M: 47, S: 10 + seq}
+	v["SystemTime"] = spec.HMS{H: 13 + (seq/3000)%10, M: (seq / 50) % 60, S: 10 + seq%50}
 	// every datagram of a sequence differs from its neighbours in every kind of field, the door and
 	// button flags included (storage shared between two delivered statuses must show)
 	for d := 1; d <= 4; d++ {
@@ -358,6 +358,26 @@ func main() {
 		ls.Shards = 4
 		scenarios = append(scenarios, ls)
 	}
+	// a burst far longer than any plausible internal queue (bounded buffers, rings, batches), while
+	// nothing consumes: every event must still be delivered, none may turn into an error
+	{
+		n := 300
+		if r.Thorough() {
+			n = 1100
+		}
+		huge := make([]string, n)
+		for i := range huge {
+			huge[i] = "valid"
+			if i%7 == 6 {
+				huge[i] = "valid-v6.62"
+			}
+		}
+		hs := scenario(fmt.Sprintf("long-burst/%d-valid/stop-later", n), huge, 3, 1, 1, 1, true)
+		hs.Deviations = 1
+		hs.Opt.Horizon = 40 * n
+		hs.Shards = 4
+		scenarios = append(scenarios, hs)
+	}
 	// (c) start/stop cycles on the same address
 	for _, seq := range sequences([]string{"valid", "bad-boolean"}, 1) {
 		for stop := 0; stop <= len(seq); stop++ {
@@ -371,7 +391,7 @@ func main() {
 	if r.Worker == "" && r.Replay == "" {
 		e1.Conformance(r)
 	}
-	r.Rule(fmt.Sprintf("(a) every datagram-class sequence of length <= %d over %d classes x stop signal after every prefix x 1-2 senders x OnError returning true / false (an environment choice per error), preemption bound 0; (b) every sequence of length <= %d over {valid, v6.62, malformed} x stop after every prefix under ALL interleavings (no preemption bound), and as a burst (datagrams and stop signal in one instant) under ALL interleavings for length 1 (thorough: length <= 2) and with <= %d preemptions beyond; (c) two consecutive Listen runs on the same address under all interleavings; (d) 12-event sequences (burst and spaced, valid and mixed) with at most 2 non-default scheduling choices of any kind. distinct = distinct (datagrams read, events, errors) labels", contentLen, len(classes), schedLen, schedBound))
+	r.Rule(fmt.Sprintf("(a) every datagram-class sequence of length <= %d over %d classes x stop signal after every prefix x 1-2 senders x OnError returning true / false (an environment choice per error), preemption bound 0; (b) every sequence of length <= %d over {valid, v6.62, malformed} x stop after every prefix under ALL interleavings (no preemption bound), and as a burst (datagrams and stop signal in one instant) under ALL interleavings for length 1 (thorough: length <= 2) and with <= %d preemptions beyond; (c) two consecutive Listen runs on the same address under all interleavings; (d) a burst of 300 (thorough 1100) valid events with at most one non-default choice, and 12-event sequences (burst and spaced, valid and mixed) with at most 2 non-default scheduling choices of any kind. distinct = distinct (datagrams read, events, errors) labels", contentLen, len(classes), schedLen, schedBound))
 	r.Assume("a datagram counts as received when a read on the listen socket returned it (datagrams still queued when the socket is closed were never received)")
 	r.Assume("calendar-invalid (but BCD) timestamps are outside the alphabet: the library documents decoding them as 'no value'")
 	r.Finish()
